@@ -1160,6 +1160,48 @@ func scenConnProduce(rng *rand.Rand, rounds int) {
 	}
 }
 
+// scenBatch: every method of one open Batch concurrently, each in every round — including the error paths that write
+// batch state: Read with a buffer shorter than the next value (io.ErrShortBuffer + rollback of the offset), Read /
+// ReadMessage running into the end of the batch, Close racing with readers; fetch v2 / v5 / v10 responses.
+func scenBatch(rng *rand.Rand, rounds int) {
+	also("Batch.Offset", "Batch.HighWaterMark", "Batch.Throttle", "Batch.Partition")
+	also("Batch.Read/short", "Batch.Read")
+	also("Batch.Read/fit", "Batch.Read")
+	also("Batch.open", "Conn.ReadBatch", "Conn.ReadBatchWith")
+	for i := 0; i < rounds; i++ {
+		b := newBroker("t", 1, 3+rng.Intn(6))
+		b.extraRecs = rng.Intn(4)
+		b.maxFetch = []int16{10, 2, 5}[i%3]
+		c := kafka.NewConn(b.dial(), "t", 0)
+		c.SetDeadline(time.Now().Add(5 * time.Second))
+		bt := c.ReadBatch(1, 1<<16)
+		closeDelay := time.Duration(rng.Intn(3)) * time.Millisecond
+		short := rng.Intn(3) // the values are 5+ bytes long
+		ops := []op{
+			{"Batch.Read/short", func() { _, err := bt.Read(make([]byte, short)); ok("Batch.Read/short", err) }},
+			{"Batch.Read/short", func() { _, err := bt.Read(make([]byte, 1, 2)); ok("Batch.Read/short", err) }},
+			{"Batch.Read/fit", func() { _, err := bt.Read(make([]byte, 64)); ok("Batch.Read/fit", err) }},
+			{"Batch.ReadMessage", func() { _, err := bt.ReadMessage(); ok("Batch.ReadMessage", err) }},
+			{"Batch.Err", func() { bt.Err() }},
+			{"Batch.Offset", func() { bt.Offset(); bt.HighWaterMark(); bt.Throttle(); bt.Partition() }},
+			{"Batch.Offset", func() { bt.Offset() }},
+			{"Batch.Close", func() { time.Sleep(closeDelay); ok("Batch.Close", bt.Close()) }},
+		}
+		if i%3 == 2 {
+			ops = ops[2:] // no short read: ErrShortBuffer is sticky, the other methods only succeed without it
+		}
+		var all []string
+		for _, o := range ops {
+			if o.name != "Batch.Close" || i%2 == 0 {
+				all = append(all, o.name)
+			}
+		}
+		runRound(rng, "batch", i, ops, len(ops), len(ops)+4, all...)
+		bt.Close()
+		c.Close()
+	}
+}
+
 func scenConn(rng *rand.Rand, rounds int) {
 	also("Conn.Broker", "Conn.LocalAddr", "Conn.RemoteAddr")
 	also("Conn.Read", "Conn.ReadBatch", "Conn.ReadBatchWith")
@@ -1515,7 +1557,7 @@ func transportScenario(rng *rand.Rand, rounds int, scen string, useTLS, churn bo
 
 var scenarios = map[string]func(*rand.Rand, int){
 	"balancers": scenBalancers, "writer": scenWriter, "writergrow": scenWriterGrow, "codecfail": scenCodecFail, "codecs": scenCodecs, "readerfront": scenReaderFront,
-	"reader": scenReader, "readergroup": scenReaderGroup, "readerrebalance": scenReaderRebalance, "conn": scenConn, "connproduce": scenConnProduce, "clientapis": scenClientAPIs, "transport": scenTransport, "transportchurn": scenTransportChurn, "transporttls": scenTransportTLS,
+	"reader": scenReader, "readergroup": scenReaderGroup, "readerrebalance": scenReaderRebalance, "conn": scenConn, "connproduce": scenConnProduce, "batch": scenBatch, "clientapis": scenClientAPIs, "transport": scenTransport, "transportchurn": scenTransportChurn, "transporttls": scenTransportTLS,
 }
 
 func main() {
